@@ -478,3 +478,80 @@ def loop_carried_mutables(body, header, entry):
         if any(d[0] not in inside for d in defs) and body.mutations_in(inside, l):
             out.add(body.debug[l])
     return out
+
+
+def _container_root(t):
+    t = strip(t)
+    while t[0] == "call" and t[2] and any(t[1].endswith(s) for s in ("ops::Index::index", "ops::IndexMut::index_mut", "Deref::deref", "DerefMut::deref_mut")):
+        t = strip(t[2][0])
+    return t
+
+
+def stale_element_reads(body, getters=None):
+    """[(name, read term, loop header)]: a local that holds an element read `C[..]` taken *before* a loop and is used *inside*
+    the loop although the loop writes elements of the same container C (a hoisted, no longer loop-invariant read)"""
+    out = []
+    loops = loops_in(body)
+    if not loops:
+        return out
+    for l in range(body.argc + 1, len(body.f["locals"])):
+        if not body.is_stable_local(l):
+            continue
+        d = body.defs[l][0]
+        o = strip(body.local_origin(l))
+        if not (o[0] == "call" and o[1].endswith("ops::Index::index")):
+            continue
+        root = norm(_container_root(o), getters)
+        for h, e, it in loops:
+            inside = {x for x in body.fwd(e) if h in body.fwd(x)} | {e}
+            if d[0] in inside:
+                continue
+            used = False
+            mut = False
+            for bi in inside:
+                blk = body.blocks[bi]
+                for s in blk["stmts"]:
+                    if s["k"] == "assign":
+                        if any(op["k"] in ("copy", "move") and op["place"]["l"] == l for op in rv_operands(s["rv"])):
+                            used = True
+                        if s["rv"]["k"] == "ref" and s["rv"]["place"]["l"] == l:
+                            used = True
+                t = blk["term"]
+                if t["k"] == "call":
+                    if any(a["k"] in ("copy", "move") and a["place"]["l"] == l for a in t["args"]):
+                        used = True
+                    if t["callee"].get("def", "").endswith("ops::IndexMut::index_mut") and norm(_container_root(body.origin(t["args"][0])), getters) == root:
+                        mut = True
+            if used and mut:
+                out.append((body.debug.get(l, "_%d" % l), show(norm(o, getters), 1)[:70], h))
+    return out
+
+
+def no_stale_elements(ctx, rule, bodies, getters=None):
+    n = 0
+    for b in bodies:
+        hits = stale_element_reads(b, getters)
+        n += 1
+        ctx.ob(rule, b.name, "element snapshots vs in-loop writes", "ok" if not hits else "violation",
+               "no element read taken before a loop is used inside it while the loop writes that container" if not hits else
+               "%s = %s is read before a loop but used inside it while the loop writes the same container: the value is stale after the first write" % (hits[0][0], hits[0][1]))
+    return n
+
+
+def sorted_at(body, local, site_bb, getters=None):
+    """is `local` (a Vec) sorted when control reaches site_bb?  A sort/sort_by/sort_unstable.. call on it dominates the site
+    and nothing mutates it in between."""
+    for bi, t in body.calls("slice::<impl [T]>::sort"):
+        recv = strip(body.origin(t["args"][0]))
+        root = recv
+        while root[0] == "call" and root[2]:
+            root = strip(root[2][0])
+        if not (root[0] == "local" and root[1] == local):
+            continue
+        if not body.dominates(bi, site_bb) or bi == site_bb:
+            continue
+        nxt = body.succ().get(bi, [])
+        region = (body.fwd(nxt[0]) if nxt else set()) & body.bwd(site_bb)
+        if not body.mutations_in(region, local, site_bb):
+            return True
+    return False
